@@ -24,7 +24,9 @@ META = {
         "flags, rules whose alternatives are all single items (inlined through seq_alts), direct and indirect left recursion; well-formed by "
         "construction (no falsy-succeeding alternative, no repetition of a nullable item, left recursion only in first position).  Pipeline "
         "under test: grammar text -> pegen.grammar_parser (shipped metagrammar parser) -> tasks.generator.XonshParserGenerator -> exec -> run on "
-        "peg_parser.tokenizer.Tokenizer.  inputs: ALL token strings up to a length bound over the grammar's own alphabet (+1 unused symbol).  "
+        "peg_parser.tokenizer.Tokenizer.  Three fixed grammars (left recursion over (memo) rules; gather/optional/repetition; cut and lookahead "
+        "over (memo) rules) are also run on programs of 90 000 tokens (thorough: up to 200 000) whose value must be the list of the values the "
+        "statements have alone.  inputs: ALL token strings up to a length bound over the grammar's own alphabet (+1 unused symbol).  "
         "Oracle: an independent ~200-line PEG interpreter over my own grammar AST (ordered choice, greedy repetition, cut, forced, keyword/NAME "
         "exclusion, seed-growing left recursion at the SCC leader); compared per (grammar, input): success/failure/forced-error, end position, "
         "value modulo falsy-equivalence.  evaluations = (grammar, input) pairs; non-trivial = a grammar using >=3 distinct operators on which "
@@ -405,6 +407,8 @@ def inputs_for(alph, budget):
 
 def check(rec, case):
     """case: {'rules': ..., 'words': [...]} (one input) -- used for replays and shrinking"""
+    if case.get("kind") == "long":
+        return check_long(rec, case)
     rules = case["rules"]
     text = peg.render(rules)
     r = compare_one(rules, text, case["words"])
@@ -571,8 +575,83 @@ HAND_GRAMMARS = {
 SHRINK_FIELDS = ()
 
 
+# ---------------------------------------------------------------------------------------------
+# long inputs: the runtime under the generated code (memo table, left-recursion seeds, token cache) must behave the
+# same on the 80 000th token as on the 8th.  Oracle (no reference interpreter needed): for 'start: stmt+ ENDMARKER' the
+# value of a program is the list of the values its statements have when parsed alone.
+
+LONG_HEADER = '@class TP\n@header """\nfrom typing import Any\nfrom peg_parser.subheader import Parser, memoize, memoize_left_rec, logger\n"""\n@trailer ""\n'
+LONG_GRAMMARS = {
+    "leftrec-with-memo-rules": (
+        "start: s=stmt+ ENDMARKER { ('S', s) }\n"
+        "stmt: e=expr ';' { e }\n"
+        "expr: l=expr '.' m=call { ('call', l, m) } | l=expr i=index { ('idx', l, i) } | l=expr '.' n=NAME { ('attr', l, n.string) } | n=NAME { n.string }\n"
+        "call (memo): n=NAME '(' ')' { n.string }\n"
+        "index (memo): '(' n=NUMBER ')' { n.string }\n",
+        [["n"], ["n", ".", "n"], ["n", ".", "n", "(", ")"], ["n", "(", "1", ")", ".", "n"], ["n", ".", "n", ".", "n", "(", ")", "(", "2", ")"], ["n", ".", "n", ".", "n", ".", "n", ".", "n", ".", "n", ".", "n", ".", "n", ".", "n", ".", "n"]],
+    ),
+    "gather-optional-repeat": (
+        "start: s=stmt+ ENDMARKER { ('S', s) }\n"
+        "stmt: 'a' l=','.item+ t=[','] ';' { ('list', l, bool(t)) } | 'b' r=item* ';' { ('rep', r) }\n"
+        "item (memo): n=NAME { n.string } | '(' l=','.item+ ')' { ('tuple', l) } | n=NUMBER { n.string }\n",
+        [["a", "n", ";"][:2], ["a", "n", ",", "1", ","], ["b"], ["b", "n", "n", "1"], ["a", "(", "n", ",", "(", "1", ")", ")", ",", "n"], ["b", "(", "n", ")", "(", "1", ",", "n", ")"]],
+    ),
+    "nested-cut-lookahead": (
+        "start: s=stmt+ ENDMARKER { ('S', s) }\n"
+        "stmt: e=term ';' { e }\n"
+        "term (memo): '(' ~ t=term ')' { ('p', t) } | &NAME a=atom '.' t=term { ('dot', a, t) } | atom\n"
+        "atom (memo): n=NAME { n.string } | n=NUMBER { n.string }\n",
+        [["n"], ["1"], ["(", "n", ")"], ["n", ".", "n", ".", "1"], ["(", "(", "n", ".", "(", "1", ")", ")", ")"], ["n", ".", "(", "n", ".", "n", ")"]],
+    ),
+}
+
+
+def check_long(rec, case):
+    import random
+
+    name, n_tokens = case["name"], case["n_tokens"]
+    gtext, units = LONG_GRAMMARS[name]
+    status, TP = get_parser(LONG_HEADER + gtext)
+    rec.case(case, status == "ok", labels=("stream:long-input", f"grammar:{name}"), key=("long", name, n_tokens, case["seed"]))
+    if status != "ok":
+        rec.fail(case, f"generator-crash:long-input:{status}", {"error": str(TP)[:300]})
+        return
+    alone = []
+    for u in units:
+        r = run_gen(TP, [*u, ";"])
+        if r[0] != "ok" or r[2] != len(u) + 2:
+            rec.fail(case, "long-input:unit-not-accepted-alone", {"unit": u, "got": str(r)[:200]})
+            return
+        alone.append(r[1][2][1])  # ("tuple", "S", ("list", value))
+    rnd = random.Random(case["seed"])
+    words, expected, picks = [], [], []
+    while len(words) < n_tokens:
+        k = rnd.randrange(len(units))
+        picks.append(k)
+        words += [*units[k], ";"]
+        expected.append(alone[k])
+    try:
+        with watchdog(300):
+            got = run_gen(TP, words)
+    except SoftTimeout:
+        rec.inconclusive["long-input-timeout"] += 1
+        return
+    except RecursionError:
+        got = ("gen-recursion",)
+    want = ("ok", ("tuple", "S", ("list", *expected)), len(words) + 1)
+    if got != want:
+        where = None
+        if got[0] == "ok" and isinstance(got[1], tuple) and len(got[1]) == 3 and isinstance(got[1][2], tuple):
+            vals = got[1][2][1:]
+            where = next((i for i, (a, b) in enumerate(zip(vals, expected)) if a != b), min(len(vals), len(expected)))
+        rec.fail(case, f"long-input:{got[0]}", {"grammar": gtext, "tokens": len(words), "statements": len(picks), "first_differing_statement": where, "consumed": got[2] if len(got) > 2 else None})
+
+
 def search(rec, ctx):
     budget = 40000 if ctx.thorough else 9500
+    longs = [(n, sz) for n in sorted(LONG_GRAMMARS) for sz in ((90_000,) if not ctx.thorough else (30_000, 90_000, 200_000))]
+    for n, sz in ctx.shard(longs):
+        check(rec, {"kind": "long", "name": n, "n_tokens": sz, "seed": ctx.hseed("long") % 100000})
     for i, (name, rules) in enumerate(sorted(HAND_GRAMMARS.items())):
         if i % ctx.n == ctx.k:
             check_grammar(rec, rules, {"hand:" + name}, budget, "hand")
@@ -592,6 +671,12 @@ def candidates(case):
     """smaller grammars: drop a rule's alternative, drop an item, replace a group by one of its alternatives' items, drop (memo)"""
     import copy
 
+    if case.get("kind") == "long":
+        n = case["n_tokens"]
+        while n > 200:
+            n //= 2
+            yield dict(case, n_tokens=n)
+        return
     rules = case["rules"]
     text = __import__("json").dumps(rules)
     for ri, (name, memo, alts) in enumerate(rules):
